@@ -467,6 +467,8 @@ def gen_pipeline_cfg(seed, big=False):
     if rng.random() < 0.08:
         cfg["damage"] = (cfg.get("damage") or []) + [[rng.randint(0, max(0, nres - 1)),
                                                        rng.choice(["altloc", "icode"])]]
+    if rng.random() < 0.10 and not cfg.get("damage"):
+        cfg["damage"] = [[nres - 1, "add_oxt"]]  # complete structure: the repair pass is skipped
     ff = rng.choice(FFS[:3]) if rng.random() < 0.7 else rng.choice(FFS)
     argv = [f"--ff={ff}"]
     if rng.random() < 0.10:
